@@ -40,6 +40,7 @@ PAYLOADS = [
     ['bytes', 'abc'], ['bytes', '\x00\xff\x80 raw'],
     ['str', 'abc'], ['str', ' padded \n'], ['str', ''], ['str', 'café'],
     ['obj', {'b': 1, 'a': [1, 2]}], ['obj', {}], ['obj', [3, 'x']], ['obj', 7], ['obj', {'k': 2}],
+    ['obj', {'identity': 0, 'expires': None, 'name': '', 'traits': [], 'k': 2}],      # a record with falsy fields
 ]
 ACLS = [None, None, [], ['srv'], ['del']]
 _SENTINEL = {'__default__': 1}
@@ -208,6 +209,18 @@ def gen_case(rng, i):
     for _k in range(rng.randint(4, 11)):
         x = rng.random()
         p = _path(rng)
+        if rng.random() < 0.06:
+            # one backend object coming back to a path it has already written / removed (what a long-lived master does:
+            # an instance moves away from a server and back): anything the object remembers about a path shows here
+            q = '/placement/%s/%s' % (rng.choice('ab'), rng.choice('ab')) if rng.random() < 0.6 else p
+            d1, d2 = _payload_d(rng), _payload_d(rng)
+            ops.extend(rng.choice([
+                [['bk_put', q, d1], ['bk_delete', q], ['bk_put', q, d2], ['bk_delete', q], ['bk_exists', q]],
+                [['bk_delete', q], ['bk_put', q, d1], ['bk_get', q], ['bk_delete', q], ['bk_list', _parent(q) if _parent(q) != '/' else q]],
+                [['bk_put', q, d1], ['bk_get', q], ['bk_put', q, d2], ['bk_get', q]],
+                [['bk_ensure', q], ['bk_delete', q], ['bk_ensure', q], ['bk_exists', q]],
+            ]))
+            continue
         if ops and rng.random() < 0.35:          # come back to a path already used (or its parent / a child)
             q = rng.choice(ops)[1]
             y = rng.random()
@@ -346,10 +359,15 @@ def impl_run(case):
             elif k == 'bk_update':
                 r = bk.update(p, py_value(op[2]), op[3])
             elif k == 'bk_get':
-                bk.get(p)
+                dec = bk.get(p)
+                st['decoded'] = json.dumps(dec, sort_keys=True, default=repr)
+                if ro.get_with_metadata(p)[0] != dec or ro.get(p) != dec:
+                    st['decoded'] = 'backend get != get_with_metadata (%r)' % (ro.get_with_metadata(p)[0],)
                 r = ('data', before[p][0], before[p][2])
             elif k == 'bk_get_default':
                 dec = bk.get_default(p, default=_SENTINEL)
+                if dec is not _SENTINEL:
+                    st['decoded'] = json.dumps(dec, sort_keys=True, default=repr)
                 r = ('default',) if dec is _SENTINEL else ('data', before[p][0], before[p][2])
             elif k == 'bk_list':
                 r = ('list', list(bk.list(p)))
@@ -591,7 +609,7 @@ def oracle(case, obs):
             if not ok and recursive:
                 hits.append(('zk-ensure-deleted-raised', 'step %d: ensure_deleted(%s, recursive) raised %s'
                              % (i, p, st['exc'])))
-        if k == 'get' and ok:
+        if k in ('get', 'bk_get', 'bk_get_default') and ok and p in bef and st['decoded'] is not None:
             # (a) read side: a dict written by put comes back as that dict
             raw = bef[p][0]
             for d in PAYLOADS:
